@@ -167,9 +167,53 @@ def _uses(toks, name, skip_range=None):
     return False
 
 
+def _log_only_closure(arg):
+    """|x| { log!(..); }   or   |x| log!(..)   : a closure whose whole body is logging"""
+    txt = [t.text for t in arg]
+    if not txt or txt[0] != "|":
+        return False
+    try:
+        k = txt.index("|", 1)
+    except ValueError:
+        return False
+    body = arg[k + 1:]
+    if body and is_p(body[0], "{"):
+        body = body[1:-1]
+    # strip `tracing::`
+    q = 0
+    while q < len(body):
+        j = q
+        if is_id(body[j], "tracing") and texts(body, j + 1, 2) == [":", ":"]:
+            j += 3
+        if not (j + 2 < len(body) and body[j].kind == "id" and body[j].text in LOG_MACROS and is_p(body[j + 1], "!") and body[j + 2].text in OPEN):
+            return False
+        c = match_close(body, j + 2)
+        q = c + 1
+        if q < len(body) and is_p(body[q], ";"):
+            q += 1
+    return True
+
+
+def rule_D_inspect(toks, au):
+    """X.inspect_err(|e| log!(..)) / X.inspect(|v| log!(..))  ->  X      (the closure only logs)"""
+    out, i, n = [], 0, len(toks)
+    while i < n:
+        t = toks[i]
+        if is_p(t, ".") and i + 2 < n and toks[i + 1].kind == "id" and toks[i + 1].text in ("inspect_err", "inspect") and is_p(toks[i + 2], "("):
+            k = match_close(toks, i + 2)
+            if _log_only_closure(toks[i + 3:k]):
+                au.note("D", f".{toks[i+1].text}(logging closure)")
+                i = k + 1
+                continue
+        out.append(t)
+        i += 1
+    return out
+
+
 def rule_D(toks, au):
     """drop statement-level logging macros, span statements, inner `use` items, and
     let-bindings that only feed dropped statements (initialiser = format!/span macro)"""
+    toks = rule_D_inspect(toks, au)
     out, i, n = [], 0, len(toks)
     while i < n:
         t = toks[i]
@@ -803,9 +847,16 @@ def rule_letchain(toks, au):
             parts = split_top(cond, "&&")
             if len(parts) > 1 and any(p and is_id(p[0], "let") for p in parts):
                 close = match_close(toks, j)
+                else_blk = None
+                end = close
                 if close + 1 < len(toks) and is_id(toks[close + 1], "else"):
-                    raise Undecided("let-chain with else is outside the rewrite table")
-                au.note("R", f"let-chain ({len(parts)} conjuncts) -> nested if")
+                    # if A && B { X } else { Y }   ->   if A { if B { X } else { Y } } else { Y }   (Y duplicated textually)
+                    if not is_p(toks[close + 2], "{"):
+                        raise Undecided("let-chain with `else if` is outside the rewrite table")
+                    eclose = match_close(toks, close + 2)
+                    else_blk = [x.copy() for x in toks[close + 1:eclose + 1]]
+                    end = eclose
+                au.note("R", f"let-chain ({len(parts)} conjuncts{', else duplicated' if else_blk else ''}) -> nested if")
                 new = []
                 for idx, p in enumerate(parts):
                     p = [x.copy() for x in p]
@@ -814,8 +865,14 @@ def rule_letchain(toks, au):
                     if idx < len(parts) - 1:
                         new.append(Tok("p", "{", " "))
                 body = toks[j:close + 1]
-                tail = [Tok("p", "}", " ") for _ in range(len(parts) - 1)]
-                toks[i:close + 1] = new + body + tail
+                tail = []
+                for _ in range(len(parts) - 1):
+                    if else_blk:
+                        tail += [x.copy() for x in else_blk]
+                    tail.append(Tok("p", "}", " "))
+                if else_blk:
+                    tail += [x.copy() for x in else_blk]
+                toks[i:end + 1] = new + body + tail
         i += 1
     return toks
 
